@@ -225,13 +225,6 @@ theorem band_complete_roundtrip (he : IsChar e) (hf : IsFaithful e) (cj : K →+
   simpa only [mdftRoundTripG, mdftRoundTrip, mdft2G, if_true, Bool.false_eq_true, if_false, neg_neg, kernS_neg_one, kernS_one]
     using this
 
-theorem mdft2_congr (w0 w1 : AxisWiring) (shp samples : Nat × Nat) (sc0 sc1 a0 a1 : R) (shift : R × R)
-    {f g : Nat → Nat → K} (h : ∀ j i, j < shp.1 → i < shp.2 → f j i = g j i) (k l : Nat) :
-    mdft2 e nrm w0 w1 shp samples sc0 sc1 a0 a1 shift f k l = mdft2 e nrm w0 w1 shp samples sc0 sc1 a0 a1 shift g k l := by
-  simp only [mdft2, sumTo_eq]
-  exact Finset.sum_congr rfl fun j hj => Finset.sum_congr rfl fun i hi => by
-    rw [h j i (Finset.mem_range.1 hj) (Finset.mem_range.1 hi)]
-
 /-- `czt2` onto the full band conserves energy as well (the transform exactly as computed, any admissible FFT lengths) -/
 theorem band_complete_energy_czt (he : IsChar e) (hf : IsFaithful e) (cj : K →+* K) (hc : IsConj cj e nrm) (hN : NrmSq nrm)
     (m n M N K1 L1 : Nat) (Qy Qx s0 s1 : R) (hQy : (m : R) * Qy = M) (hQx : (n : R) * Qx = N)
